@@ -436,6 +436,9 @@ func diffClass(d string) string {
 
 func runC07(ctx *Ctx) error {
 	ctx.Res.Rule = "seeded component schemas (objects with required/optional/nullable/readOnly/writeOnly members, nested and referenced objects, arrays, maps, additionalProperties true/false/schema, allOf, oneOf, every handled format, enums) x nullable-type on/off x compatibility flags, compiled (models only); schema-directed valid instances incl. boundary values (empty arrays/objects/strings, explicit nulls, int64 extremes, 2^53+1, float32-exact and float64 edge decimals, escaped and non-ASCII strings, extra members where additionalProperties is declared) decoded into the generated type and encoded again; semantic JSON equality, the only tolerated difference an absent member reappearing as null; non-trivial = every (schema, instance)"
+	if err := corrGoJSON(ctx, ctx.N(4000, 60000)); err != nil {
+		return err
+	}
 	kit, err := NewRunKit(ctx.Work)
 	if err != nil {
 		return err
@@ -550,7 +553,10 @@ func clip(s string, n int) string {
 	return s
 }
 
-func init() { register("c07", runC07) }
+func init() {
+	register("c07", runC07)
+	register("c07json", func(ctx *Ctx) error { return corrGoJSON(ctx, ctx.N(4000, 60000)) })
+}
 
 func sameInstant(a, b string) bool {
 	ta, e1 := time.Parse(time.RFC3339Nano, a)
